@@ -1620,6 +1620,8 @@ func (mgr *Manager) convertStreamJob(allConverters []*converters.CachedConverter
 				if tag.features.MainFeatures&query.FeatureFilterData == 0 && tag.features.SubQueryFeatures&query.FeatureFilterData == 0 {
 					continue
 				}
+				// a running tagging job and the views share the old bitmask
+				tag.Uncertain = tag.Uncertain.Copy()
 				tag.Uncertain.Or(*allStreamIDs[i])
 			}
 			mgr.updatedStreamsDuringTaggingJob.Or(*allStreamIDs[i])
